@@ -1,5 +1,6 @@
 import Irismod.Props.C12_Nft
-open Irismod Irismod.Props.C12.Nft
+import Irismod.Proofs.NftMonitor
+open Irismod Irismod.Props.C12.Nft Irismod.Proofs.NftMonitor
 #print axioms nft_wf_init
 #print axioms nft_wf_step
 #print axioms nft_wf_reachable
@@ -11,6 +12,8 @@ open Irismod Irismod.Props.C12.Nft
 #print axioms nft_import_closed
 #print axioms nft_roundtrip_reachable
 #print axioms nft_roundtrip_twice
+-- monitor soundness of the genesis clauses (export-invalid, reimport-panic, reimport-changed-state, state clauses)
+#print axioms genesis_sound
 -- non-vacuity: a concrete reachable NFT store (two classes, one empty after a burn and handed over;
 -- an edited token, a transferred token with a 256-byte URI) round-trips in the executable model:
 -- export validates, import succeeds, re-export is identical, the monitor's sameObs holds
